@@ -63,4 +63,5 @@ b33e5d2 C15
 4285d0b C12
 b2f388a C19
 9df52d6 C05
+7cc02bb C01
 LIST
